@@ -19,6 +19,7 @@ import (
 	"fmt"
 	"io"
 	"net"
+	"os"
 	"sync"
 	"time"
 
@@ -291,7 +292,12 @@ func c11GroupOK(g [][][]byte, qs [][]c11RefPacket) bool {
 	return true
 }
 
+// the concurrent runs execute in a child process: a fatal error in a goroutine
+// of the library (it cannot be recovered here) becomes the outcome 'crash
 func execC11Conc(in sx.V) sx.V {
+	if os.Getenv("VERIF_C11_CHILD") != "1" {
+		return c11RunChild("c11.conc "+in.String(), 60*time.Second)
+	}
 	a := in.List
 	qs := c11Queues(a[9])
 	reply := c11RefPacket{nonce: a[8].List[0].Bytes, payload: a[8].List[1].Bytes}
@@ -334,6 +340,9 @@ func c11StressQueues(r *prng.R, n, k, size int) [][]c11RefPacket {
 }
 
 func execC11Stress(in sx.V) sx.V {
+	if os.Getenv("VERIF_C11_CHILD") != "1" {
+		return c11RunChild("c11.stress "+in.String(), 90*time.Second)
+	}
 	r := prng.New(in.List[0].U64())
 	n, k, size := in.List[1].I(), in.List[2].I(), in.List[3].I()
 	sseed, cseed, params := r.Bytes(32), r.Bytes(32), r.Bytes(160)
@@ -467,7 +476,7 @@ func genC11Concurrent(c *Ctx) {
 	}
 	// (a') load, implementation only
 	type st struct{ n, k, size int }
-	runs := []st{{8, 40, 2048}, {4, 60, 512}}
+	runs := []st{{8, 40, 2048}, {4, 60, 512}, {6, 8, 200000}} // the last: long marshal / checksum windows overlap
 	if c.Thorough() {
 		runs = append(runs, st{8, 150, 16384}, st{8, 100, 8192}, st{3, 300, 64}, st{8, 150, 16384})
 	}
